@@ -482,14 +482,14 @@ def rule_P3(ctx, prefix, prog, site, allow_globals=()):
                         reassigned.add(n.id)
             stale = sorted((gl & reassigned) - set(allow_globals))
             if stale:
-                persistent = site.pool_kind == "pathos"
+                persistent = site.pool_kind == "pathos" and not _pool_refreshed(prog, site, stale)
                 if site.pool_kind in ("builtin-map", "serial-loop"):
                     ctx.ok(f"{prefix}.P3-GLOBALS", f.site, f"serial twin reads parent-assigned globals {stale} "
                                                           f"in-process", key=f"{site.pool_kind}:{','.join(stale)}")
                 else:
                     ctx.check(not persistent, f"{prefix}.P3-GLOBALS", f.site,
-                              f"worker reads parent-assigned globals {stale}; the pool is created after the "
-                              f"assignment and is not process-persistent",
+                              f"worker reads parent-assigned globals {stale}; they are assigned before the pool is "
+                              f"created and the pool does not outlive the call (not process-persistent)",
                               f"worker reads module globals {stale} that the parent re-assigns per instance "
                               f"(`global` in {f.module.relpath}); the pathos ProcessingPool is cached and its "
                               f"worker processes persist, so a second instance computes with the first instance's "
@@ -516,6 +516,42 @@ def rule_P3_module_ref(ctx, prefix, prog, modules):
                       f"its functions are then pickled *by reference*, and the cached pathos worker processes resolve "
                       f"that name to the module they already hold — a second recipe file in the same process runs the "
                       f"first recipe", where=loc(fi, regs[0]) if regs else None)
+
+
+def _pool_refreshed(prog, site, stale):
+    """a pathos pool is not persistent state if, in the function that uses it, (a) the globals its workers read are
+    (re)assigned before the pool is created and (b) the pool is closed, joined and cleared after its results were
+    consumed (pathos then builds a fresh pool, forked with the current globals, on the next call)"""
+    fi = site.fi
+    assigners = set()
+    for g in fi.module.functions.values():
+        declared = set()
+        for n in ast.walk(g.node):
+            if isinstance(n, ast.Global):
+                declared.update(n.names)
+        if set(stale) <= declared and all(any(isinstance(n, ast.Name) and isinstance(n.ctx, ast.Store) and n.id == nm
+                                               for n in ast.walk(g.node)) for nm in stale):
+            assigners.add(g.qualname)
+    binds = pool_bindings(prog, fi)
+    pool_line = binds.get(site.pool_expr, (None, None))[1]
+    if pool_line is None:
+        return False
+    pool_line = pool_line.lineno
+    set_before = False
+    for n in walk_no_nested(fi.node):
+        if isinstance(n, ast.Call) and n.lineno < pool_line:
+            for t in prog.resolve_callable(fi, n.func):
+                if t.qualname in assigners:
+                    # must not sit in a loop that the pool creation is outside of, nor under an unrelated condition
+                    set_before = True
+    consumer = site.consumer[2]
+    end = getattr(consumer, "end_lineno", None) or site.call.lineno
+    done = {m: False for m in ("close", "join", "clear")}
+    for n in walk_no_nested(fi.node):
+        if isinstance(n, ast.Call) and isinstance(n.func, ast.Attribute) and norm(n.func.value) == site.pool_expr \
+                and n.func.attr in done and n.lineno > end:
+            done[n.func.attr] = True
+    return set_before and all(done.values())
 
 
 def _is_local(f, name):
